@@ -9,6 +9,8 @@ case = {
   "pub": [...], "priv": [...],            # keypair: specific attributes ("attrs" = common)
   "derive": {"otype","method","dp","base_len"},
   "pre": n,                               # objects created before (uid offset)
+  "before": [step, ...],                  # optional history before the target is stored: other objects
+                                          # created / changed / destroyed (the newest one last), restart
   "inter": [step, ...],                   # operations on OTHER objects / restarts before reading back
   "again": [step, ...],                   # between the two read-backs
 }
@@ -318,6 +320,14 @@ def case_s(draw, path, kind, probe=True):
             if part in spec:
                 spec[part] = kept
     spec["pre"] = draw(st.sampled_from([0, 0, 1, 3]))
+    if draw(st.integers(0, 2)) == 0:
+        hist = draw(steps_s(v))
+        hist = [s_ for s_ in hist if s_["k"] != "read-target"]
+        hist.append({"k": "rich-then-destroy", "t": draw(st.sampled_from(H.OBJECT_TYPES)),
+                     "share": draw(st.booleans())})
+        if draw(st.booleans()):
+            hist.append({"k": "restart"})
+        spec["before"] = hist
     spec["inter"] = draw(steps_s(v))
     spec["again"] = draw(weighted((2, st.just([])), (1, steps_s(v))))
     n = 0
